@@ -494,14 +494,14 @@ package lua
 //@ modifies everything
 
 //@ func jumpTable[OP_GETTABLEKS] [C01 C04 C07]
-//@ requires Frame(L) && offs(L) && opA(inst) < nreg(L) && opB(inst) < nreg(L) && rksOK(L, opC(inst))
+//@ requires Frame(L) && offs(L) && opA(inst) < nreg(L) && opB(inst) < nreg(L) && rksOK(L, opC(inst)) && IdxOK(L) && regsValid(L) && lb(L) + nreg(L) <= top(L)
 //@ ensures  result == 0 && Frame(L) && pc(L) == old(pc(L)) && ncalls() == old(ncalls()) + 1 && callfn(old(ncalls())) == fnid("(*LState).getFieldString")
 //@ ensures  "operands": callargLV(old(ncalls()), 1) == old(R(L, opB(inst))) && callargStr(old(ncalls()), 2) == old(RKs(L, opC(inst)))
 //@ ensures  "result": R(L, opA(inst)) == callresLV(old(ncalls()), 0)
 //@ modifies everything
 
 //@ func jumpTable[OP_GETGLOBAL] [C01 C03 C07]
-//@ requires Frame(L) && offs(L) && opA(inst) < nreg(L) && opBx(inst) < len(sconst(L))
+//@ requires Frame(L) && offs(L) && opA(inst) < nreg(L) && opBx(inst) < len(sconst(L)) && IdxOK(L) && L.currentFrame.Fn.Env != nil
 //@ ensures  result == 0 && Frame(L) && pc(L) == old(pc(L)) && ncalls() == old(ncalls()) + 1 && callfn(old(ncalls())) == fnid("(*LState).getFieldString")
 //@ ensures  "environment": callargLV(old(ncalls()), 1) == old(mkTab(L.currentFrame.Fn.Env)) && callargStr(old(ncalls()), 2) == old(sconst(L)[opBx(inst)])
 //@ ensures  "result": R(L, opA(inst)) == callresLV(old(ncalls()), 0)
@@ -527,7 +527,7 @@ package lua
 
 // OP_SELF: R(A+1) := R(B); R(A) := R(B)[RK(C)] - the key is read BEFORE R(A+1) is overwritten (it may live there)
 //@ func jumpTable[OP_SELF] [C01 C02 C04 C07]
-//@ requires Frame(L) && offs(L) && opA(inst) + 1 < nreg(L) && opB(inst) < nreg(L) && rksOK(L, opC(inst))
+//@ requires Frame(L) && offs(L) && opA(inst) + 1 < nreg(L) && opB(inst) < nreg(L) && rksOK(L, opC(inst)) && IdxOK(L) && regsValid(L) && lb(L) + nreg(L) <= top(L)
 //@ ensures  result == 0 && Frame(L) && pc(L) == old(pc(L)) && ncalls() == old(ncalls()) + 1 && callfn(old(ncalls())) == fnid("(*LState).getFieldString")
 //@ ensures  "operands": callargLV(old(ncalls()), 1) == old(R(L, opB(inst))) && callargStr(old(ncalls()), 2) == old(RKs(L, opC(inst)))
 //@ ensures  "result": R(L, opA(inst)) == callresLV(old(ncalls()), 0) && R(L, opA(inst) + 1) == old(R(L, opB(inst)))
